@@ -148,6 +148,44 @@ def _coop_iter(obj, name, *a, **k):
         yield from g(*a, **k)
 
 
+def _coop_prop(obj, name):
+    """attribute access to a (possibly yieldified) property"""
+    g = getattr(type(obj), name + "__gen", None)
+    if g is None:
+        return getattr(obj, name)
+    return (yield from g(obj))
+
+
+def _coop_gen_call(fn, *a, **k):
+    """call a function whose result may be a generator (a cooperative task body): drive it as part of this actor"""
+    r = fn(*a, **k)
+    if inspect.isgenerator(r):
+        return (yield from r)
+    return r
+
+
+class ActorLocal:
+    """threading.local() stand-in: one namespace per actor (all actors share one OS thread)"""
+
+    def __init__(self):
+        object.__setattr__(self, "_d", {})
+
+    def _ns(self):
+        return object.__getattribute__(self, "_d").setdefault(id(CURRENT[0]), {})
+
+    def __getattr__(self, n):
+        try:
+            return self._ns()[n]
+        except KeyError:
+            raise AttributeError(n)
+
+    def __setattr__(self, n, v):
+        self._ns()[n] = v
+
+    def __delattr__(self, n):
+        self._ns().pop(n, None)
+
+
 def _is_locked_error(e: BaseException) -> bool:
     return isinstance(e, sqlite3.OperationalError) and "locked" in str(e)
 
@@ -240,8 +278,17 @@ def close_all_connections() -> None:
 
 # ----------------------------------------------------------------------------- AST rewriting
 class _ExprRewriter(ast.NodeTransformer):
-    def __init__(self, names: set[str], gen_names: set[str], sql: bool):
+    def __init__(self, names: set[str], gen_names: set[str], sql: bool, prop_names: set[str] | None = None, gen_calls: set[str] | None = None):
         self.names, self.gen_names, self.sql = names, gen_names, sql
+        self.prop_names = prop_names or set()
+        self.gen_calls = gen_calls or set()
+
+    def visit_Attribute(self, n):
+        self.generic_visit(n)
+        if isinstance(n.ctx, ast.Load) and n.attr in self.prop_names:
+            call = ast.Call(func=ast.Name("__coop_prop", ast.Load()), args=[n.value, ast.Constant(n.attr)], keywords=[])
+            return ast.YieldFrom(value=call)
+        return n
 
     # never descend into nested scopes where `yield` is illegal or means something else
     def visit_Lambda(self, n):
@@ -282,8 +329,18 @@ class _ExprRewriter(ast.NodeTransformer):
         return ast.YieldFrom(value=gen)
 
     def visit_Call(self, n):
-        self.generic_visit(n)
+        # do not turn the callee of a method call into a property access: visit the pieces separately
+        if isinstance(n.func, ast.Attribute):
+            n.func.value = self.visit(n.func.value)
+            n.args = [self.visit(a) for a in n.args]
+            for kw in n.keywords:
+                kw.value = self.visit(kw.value)
+        else:
+            self.generic_visit(n)
         f = n.func
+        if isinstance(f, ast.Name) and f.id in self.gen_calls:
+            call = ast.Call(func=ast.Name("__coop_gen_call", ast.Load()), args=[ast.Name(f.id, ast.Load())] + n.args, keywords=n.keywords)
+            return ast.YieldFrom(value=call)
         if isinstance(f, ast.Attribute):
             if f.attr in self.names and f.attr not in self.gen_names:
                 call = ast.Call(func=ast.Name("__coop_call", ast.Load()),
@@ -298,8 +355,8 @@ class _ExprRewriter(ast.NodeTransformer):
 
 
 class _Rewriter:
-    def __init__(self, names, gen_names, sql, drop_stmt: Callable[[ast.stmt], bool] | None = None):
-        self.ex = _ExprRewriter(names, gen_names, sql)
+    def __init__(self, names, gen_names, sql, drop_stmt: Callable[[ast.stmt], bool] | None = None, prop_names=None, gen_calls=None):
+        self.ex = _ExprRewriter(names, gen_names, sql, prop_names, gen_calls)
         self.gen_names = gen_names
         self.drop = drop_stmt
         self.n_points = 0
@@ -391,21 +448,23 @@ def _find(owner, name):
 
 
 def yieldify(owner, names: list[str], all_names: set[str] | None = None, gen_names: set[str] | None = None,
-             sql: bool = False, drop_stmt=None, suffix: str = "__gen") -> dict[str, int]:
-    """Install `<name>__gen` twins on `owner` (class or module). Returns yield-point counts."""
+             sql: bool = False, drop_stmt=None, suffix: str = "__gen", prop_names: set[str] | None = None,
+             gen_calls: set[str] | None = None) -> dict[str, int]:
+    """Install `<name>__gen` twins on `owner` (class or module). Returns yield-point counts.
+    prop_names: attribute reads `X.<name>` become `yield from` of the property's twin; gen_calls: calls `name(...)` of module-level
+    functions whose result may be a generator (cooperative task bodies) are driven as part of the actor."""
     all_names = set(all_names or names)
     fns = {n: _find(owner, n) for n in names}
+    fns = {n: (f.fget if isinstance(f, property) else f) for n, f in fns.items()}
     if gen_names is None:
         gen_names = {n for n, f in fns.items() if inspect.isgeneratorfunction(f)}
     counts = {}
     for n, f in fns.items():
-        if isinstance(f, property):
-            raise HarnessLimit("properties are not yieldified")
         src = textwrap.dedent(inspect.getsource(f))
         tree = ast.parse(src)
         fdef = tree.body[0]
         assert isinstance(fdef, ast.FunctionDef), n
-        rw = _Rewriter(all_names, set(gen_names), sql, drop_stmt)
+        rw = _Rewriter(all_names, set(gen_names), sql, drop_stmt, prop_names, gen_calls)
         _, start = inspect.getsourcelines(f)
         ast.increment_lineno(tree, start - 1)
         fdef.body = rw.body(fdef.body)
@@ -424,6 +483,8 @@ def yieldify(owner, names: list[str], all_names: set[str] | None = None, gen_nam
         glob.setdefault("__coop_call", _coop_call)
         glob.setdefault("__coop_iter", _coop_iter)
         glob.setdefault("__coop_sql", _coop_sql)
+        glob.setdefault("__coop_prop", _coop_prop)
+        glob.setdefault("__coop_gen_call", _coop_gen_call)
         code = compile(tree, f"<coop:{getattr(f, '__qualname__', n)}>", "exec")
         ns: dict = {}
         exec(code, glob, ns)
@@ -500,19 +561,23 @@ class Actor:
 
 
 def run_schedule(actors: list[Actor], first, slices: list, crash: tuple | None = None,
-                 max_total: int = 20000) -> dict:
+                 max_total: int = 20000, quantum=None, stop_when: Callable[[], bool] | None = None,
+                 budget_is_deadlock: bool = False) -> dict:
     """Bounded-preemption schedule: run actor `first` for slices[0] steps, switch to the next runnable actor
     for slices[1] steps, ...; after the last slice the remaining actors run to completion without further
-    preemption (switching only when one blocks or finishes). crash = (actor_index, k): that actor stops for
-    good after its k-th step (no unwinding). Returns {'deadlock': bool, 'schedule': [...]}"""
-    n = len(actors)
+    preemption (switching only when one blocks or finishes) - or, with `quantum`, fairly round-robin with at most
+    `quantum` steps per turn (needed when actors poll in loops). `actors` may grow while running (stand-in threads).
+    crash = (actor_index, k): that actor stops for good after its k-th step (no unwinding).
+    Returns {'deadlock': bool, 'schedule': [...]}"""
+    def n():
+        return len(actors)
     cur = 0
-    for i in range(n):  # first may be symbolic: decide it by comparisons
+    for i in range(n()):  # first may be symbolic: decide it by comparisons
         if not sym_lt(i, first):
             cur = i
             break
     else:
-        cur = n - 1
+        cur = n() - 1
     log = []
     total = 0
 
@@ -530,13 +595,18 @@ def run_schedule(actors: list[Actor], first, slices: list, crash: tuple | None =
         return False
 
     def next_runnable(after):
-        for d in range(1, n + 1):
-            j = (after + d) % n
+        for d in range(1, n() + 1):
+            j = (after + d) % n()
             if runnable(actors[j]):
                 return j
         return None
 
+    def stopped():
+        return stop_when is not None and stop_when()
+
     for k in slices:
+        if stopped():
+            break
         if not runnable(actors[cur]):
             nxt = next_runnable(cur)
             if nxt is None:
@@ -563,26 +633,37 @@ def run_schedule(actors: list[Actor], first, slices: list, crash: tuple | None =
         cur = nxt
     # completion phase
     stuck_rounds = 0
-    while any(runnable(a) for a in actors):
+    while any(runnable(a) for a in actors) and not stopped():
         progressed = False
-        for d in range(n):
-            j = (cur + d) % n
+        for d in range(n()):
+            j = (cur + d) % n()
             a = actors[j]
             if not runnable(a):
                 continue
+            turn = 0
             while runnable(a):
+                if quantum is not None and not sym_lt(turn, quantum) and not a.holds_sqlite_write():
+                    break
                 if check_crash(j):
                     progressed = True
                     break
                 r = a.step()
                 total += 1
+                turn += 1
                 if total > max_total:
+                    if budget_is_deadlock:
+                        CURRENT[0] = None
+                        return {"deadlock": True, "schedule": log, "reason": "step budget exhausted"}
                     raise HarnessLimit("schedule exceeded max_total steps")
                 if r == "B":
                     break
                 progressed = True
+                if stopped():
+                    break
             if a.done:
                 progressed = True
+            if stopped():
+                break
         if not progressed:
             stuck_rounds += 1
             if stuck_rounds == 1:
@@ -591,6 +672,7 @@ def run_schedule(actors: list[Actor], first, slices: list, crash: tuple | None =
                     if runnable(a) and a.blocked:
                         a._send = True
                 continue
+            CURRENT[0] = None
             return {"deadlock": True, "schedule": log}
         else:
             stuck_rounds = 0
